@@ -91,21 +91,50 @@ func liveRun(c *core.Ctx, r *core.Result, idx int, rng *rand.Rand) {
 	if !ok {
 		r.Inconcl("live run %d: the inbound stream was not fully processed within 25 s", idx)
 	}
-	evs := rec.Events()
-	viol, deliveries := checkTrace(evs, true)
-	// the value the store reports now must be the value the session last moved it to
-	lastAfter := 0
-	for _, e := range evs {
-		if e.Kind == "store" {
-			switch e.StoreOp {
-			case "IncrTarget", "SetTarget":
-				lastAfter = e.After
-			case "Reset":
-				lastAfter = 1
+	// the value the store reports must be the value the session last moved it to. The log is read first and the
+	// store afterwards, so a store that reports *less* than the last logged value has lost an advance whether or not
+	// the session is still working (only a reset in between could explain it: re-read then). A store that reports
+	// *more* is judged at quiescence only, and only when the disagreement is stable: the answer to the closing
+	// TestRequest goes out before the session moves on to the next number, so a reading can fall between the two.
+	var evs []lab.Event
+	lastAfter, now := 0, 0
+	for attempt := 0; attempt < 6; attempt++ {
+		if attempt > 0 {
+			time.Sleep(time.Duration(attempt) * 300 * time.Millisecond)
+		}
+		evs = rec.Events()
+		lastAfter = 0
+		for _, e := range evs {
+			if e.Kind == "store" {
+				switch e.StoreOp {
+				case "IncrTarget", "SetTarget":
+					lastAfter = e.After
+				case "Reset":
+					lastAfter = 1
+				}
 			}
 		}
+		now = eng.Store().NextTargetMsgSeqNum()
+		resetSince := false
+		for _, e := range rec.Events()[len(evs):] {
+			if e.Kind == "store" && (e.StoreOp == "Reset" || e.StoreOp == "SetTarget") {
+				resetSince = true
+			}
+		}
+		if resetSince {
+			now = lastAfter
+			continue
+		}
+		if lastAfter == 0 || now <= lastAfter {
+			break
+		}
+		if !ok {
+			now = lastAfter // still working through the stream: "more" means nothing yet
+			break
+		}
 	}
-	if now := eng.Store().NextTargetMsgSeqNum(); lastAfter != 0 && now != lastAfter {
+	viol, deliveries := checkTrace(evs, true)
+	if lastAfter != 0 && now != lastAfter {
 		cls := "changed-behind-the-engine"
 		if now < lastAfter {
 			cls = "moved-backwards"
